@@ -29,6 +29,16 @@ template <class X> static auto tryw_impl(X x, int) -> decltype(x.TryToWrite(std:
 template <class X> static void tryw_impl(X, long) {}
 template <class X> static void tryw(X x) { tryw_impl(x, 0); }
 template <class X> static void readit(const X &x, char h) { if (x.Ok() && h == 'T') (void)x.Read(); }
+// scalar views copy from views of the same kind: TryToCopyFrom must fail (not trip a check) when the source is not Ok,
+// and the three copy methods must at least be instantiable
+template <class X> static auto selfcopy_impl(X x, int) -> decltype(x.TryToCopyFrom(x), void()) {
+  bool ok = x.Ok();
+  bool r = x.TryToCopyFrom(x);
+  if (r && !ok) { std::fprintf(stderr, "VK: TryToCopyFrom succeeded from a source that is not Ok\n"); std::abort(); }
+  if (ok) { x.CopyFrom(x); x.UncheckedCopyFrom(x); if (!x.Ok()) { std::fprintf(stderr, "VK: field not Ok after copying from itself\n"); std::abort(); } }
+}
+template <class X> static void selfcopy_impl(X, long) {}
+template <class X> static void selfcopy(X x) { selfcopy_impl(x, 0); }
 // an element at an index >= ElementCount() lies outside the array's extent: it must not be usable, and no write may succeed
 template <class X> static auto past_impl(X x, int) -> decltype(x.TryToWrite(std::declval<typename std::decay<decltype(x.Read())>::type>()), void()) {
   typedef typename std::decay<decltype(x.Read())>::type VT;
@@ -63,7 +73,7 @@ def gen_ops(module):
                 t = f.type
                 body.append("  { char h = vk::hch(v.has_%s());" % n)
                 if f.virtual or t[0] in ("UInt", "Int", "Bcd", "Flag", "Float", "enum"):
-                    body.append("    auto x = v.%s(); vk::readit(x, h); vk::tryw(x); }" % n)
+                    body.append("    auto x = v.%s(); vk::readit(x, h); vk::selfcopy(x); vk::tryw(x); }" % n)
                 elif t[0] == "struct":
                     body.append("    auto s = v.%s(); (void)h; %s(s); }" % (n, cppdrv._obs_name(module, m, alias, t[1]).replace("obs_", "ops_")))
                 elif t[0] == "array":
@@ -73,7 +83,7 @@ def gen_ops(module):
                     if t[1][0] == "struct":
                         body.append("      %s(a[i]);" % cppdrv._obs_name(module, m, alias, t[1][1]).replace("obs_", "ops_"))
                     else:
-                        body.append("      auto e = a[i]; vk::readit(e, 'T'); vk::tryw(e);")
+                        body.append("      auto e = a[i]; vk::readit(e, 'T'); vk::selfcopy(e); vk::tryw(e);")
                     body.append("    }")
                     body.append("    for (size_t i = a.ElementCount(); i < a.ElementCount() + 3; ++i) vk::past(a[i]);")
                     body.append("    }")
